@@ -119,6 +119,11 @@ Proof.
 Qed.
 Print Assumptions C02_driver_mode_separates.
 
+(* generate_hash_key hands the key functions an environment that still contains every variable of both allow-lists *)
+Theorem C02_env_reaches_keys : prefilter_ok the_env_prefilter the_spec = true.
+Proof. exact the_prefilter_ok. Qed.
+Print Assumptions C02_env_reaches_keys.
+
 (* BLAKE3's collision-freeness is a hypothesis on exactly the two encodings compared. *)
 Theorem C02_key_iff :
   forall (H : bytes -> bytes) (r1 r2 : creq),
